@@ -1599,12 +1599,12 @@ int save_object (object_t * ob, const char *file, int save_zeros) {
     return 0;
 
   len = strlen (file);
-  if (file[len - 2] == '.' && file[len - 1] == 'c')
+  if (len >= 2 && file[len - 2] == '.' && file[len - 1] == 'c')
     len -= 2; /* strip .c */
 
   if (sel == (size_t)-1)
     sel = strlen (SAVE_EXTENSION);
-  if (strcmp (file + len - sel, SAVE_EXTENSION) == 0)
+  if (len >= sel && strcmp (file + len - sel, SAVE_EXTENSION) == 0)
     len -= sel; /* strip SAVE_EXTENSION if already present */
 
   name = new_string (len + strlen (SAVE_EXTENSION), "save_object");
@@ -1743,12 +1743,12 @@ int restore_object (object_t * ob, const char *file, int noclear) {
     return 0;
 
   len = strlen (file);
-  if (file[len - 2] == '.' && file[len - 1] == 'c')
+  if (len >= 2 && file[len - 2] == '.' && file[len - 1] == 'c')
     len -= 2;
 
   if (sel == (size_t)-1)
     sel = strlen (SAVE_EXTENSION);
-  if (strcmp (file + len - sel, SAVE_EXTENSION) == 0)
+  if (len >= sel && strcmp (file + len - sel, SAVE_EXTENSION) == 0)
     len -= sel;
 
   name = new_string (len + strlen (SAVE_EXTENSION), "restore_object");
